@@ -4,6 +4,8 @@
 import PyGqlModel.Lex
 import PyGqlModel.PrintString
 import PyGqlModel.Lemmas.LexChars
+import PyGqlModel.Lemmas.LexBlockEscape
+import PyGqlModel.Spec.BlockStringSpec
 
 namespace PyGql.Props.C03
 open PyGql.Lex PyGql.PrintString
@@ -82,5 +84,44 @@ theorem quoted_roundtrip (v : Text) :
 
 /-- non-vacuity: `a"😀\` + U+0001 + lone surrogate U+D800 -/
 example : jsonDumps [97, 34, 0x1F600, 92, 1, 0xD800] = [34, 97, 92, 34, 0x1F600, 92, 92, 92, 117, 48, 48, 48, 49, 0xD800, 34] := by decide
+
+/-- THE FULL STATEMENT `block_roundtrip`: for every value in the range of `BlockStringValue` (made of block-string
+    characters), every indent string over {space, tab}, every enclosing depth `k` and both paths (value / description),
+    the printed block string lexes to exactly one BlockString token whose value is the original. -/
+def BlockRoundtripStatement : Prop :=
+  ∀ (raw ind : Text) (k : Nat) (isDesc : Bool),
+    let v := Spec.BlockStringValue raw
+    (∀ c ∈ v, blockChar c = true) → (∀ c ∈ ind, c = 32 ∨ c = 9) →
+    ∃ a b, lexAll (indentN ind k (blockString v ind isDesc)) =
+      .ok [sofTok, ⟨.blockString, a, b, v⟩, eofTok (indentN ind k (blockString v ind isDesc)).length]
+
+/-- `block_roundtrip_partial` — the ESCAPING half of `block_roundtrip`, for ALL values (not only canonical ones):
+    the lexer's block-string scanner inverts the printer's `value.replace('"""', '\\"""')`. Whatever layout `w` the
+    printer puts on the following line (indentation + closing quotes), scanning `escaped(v) LF w` returns `v` followed by
+    what scanning `LF w` returns; in particular no `"`/`\` at the end of `v` can fuse with the closing quotes
+    (defect R3 for the one-line form is this statement with the appended LF).
+    MISSING for the full statement: the LAYOUT half — `BlockStringValue (LF (P·l₁) LF … LF (P·lₙ) LF Q) = v` for
+    canonical `v` with lines `lᵢ` and blank prefixes `P`, `Q` (DESIGN lemma `indent_common_shift`:
+    `commonIndent (map (P ++ ·) ls) = |P| + commonIndent ls`, `splitLines (joinLF ls) = ls`, `stripBlank`).
+    That half is covered by the correspondence + direct oracle (depth 0–3, 7 indents, both paths) and the instances below. -/
+theorem block_roundtrip_partial (n : Nat) (v w : Text) (hv : ∀ c ∈ v, blockChar c = true) :
+    readBlockBody n 0 (escapeTripleQuotes v ++ 10 :: w) =
+      (readBlockBody n 0 (10 :: w)).map (fun p => (v ++ p.1, p.2)) :=
+  readBlockBody_escape n w v 0 (Nat.zero_le _) hv
+
+/-- non-vacuity / instances of the full statement (value `  a"""\` + LF + `b"`, i.e. leading blanks, an embedded triple
+    quote, trailing backslash and quote): depth 0 with a 2-space indent, depth 2 with a TAB indent, description path -/
+example : ((lexAll (indentN [32, 32] 0 (blockString [32, 32, 97, 34, 34, 34, 92, 10, 98, 34] [32, 32] false))).toOption.map
+    (fun ts => ts.map (fun t => (t.kind, t.value)))) =
+    some [(.sof, sofTok.value), (.blockString, [32, 32, 97, 34, 34, 34, 92, 10, 98, 34]), (.eof, (eofTok 0).value)] := by decide
+example : ((lexAll (indentN [9] 2 (blockString [32, 32, 97, 34, 34, 34, 92, 10, 98, 34] [9] false))).toOption.map
+    (fun ts => ts.map (fun t => (t.kind, t.value)))) =
+    some [(.sof, sofTok.value), (.blockString, [32, 32, 97, 34, 34, 34, 92, 10, 98, 34]), (.eof, (eofTok 0).value)] := by decide
+example : ((lexAll (indentN [32] 1 (blockString [32, 97, 92] [32] true))).toOption.map
+    (fun ts => ts.map (fun t => (t.kind, t.value)))) =
+    some [(.sof, sofTok.value), (.blockString, [32, 97, 92]), (.eof, (eofTok 0).value)] := by decide
+/-- the empty block string prints and round-trips (defect R1 fixed) -/
+example : ((lexAll (blockString [] [32, 32] false)).toOption.map (fun ts => ts.map (fun t => (t.kind, t.value)))) =
+    some [(.sof, sofTok.value), (.blockString, []), (.eof, (eofTok 0).value)] := by decide
 
 end PyGql.Props.C03
